@@ -125,9 +125,18 @@ def _line_case(item):
         for i, f in enumerate(al):
             path[f - 1] = labels[i]
         vals = []
+        extra_vals = []
+        nonsquare = t != len(labels)          # equal counts take the transformer branch, which ignores log_probs
         for key, cs in (("", c0), ("_s", c1)):
             line = TextLine(id="l", logits=render(wm, d, cs), characters=chars)
             lc = np.asarray(get_line_confidence(line, lab, aligned_letters=al0.copy()), dtype=float)
+            if key == "_s" and nonsquare:
+                # the caller-supplied form (the ALTO export passes its own log-probabilities): asked twice with the SAME arrays,
+                # the answers are part of the same observation (ranges, one-hot clause) and must not depend on the first call
+                own = line.get_full_logprobs()
+                al_own = al0.copy()
+                again = [np.asarray(get_line_confidence(line, lab, aligned_letters=al_own, log_probs=own), dtype=float) for _ in (0, 1)]
+                extra_vals.extend(again)
             let = np.exp(np.asarray(get_letter_confidence(line.get_dense_logits(), list(path), nc - 1), dtype=float))
             cmp_ = float(PageParser.compute_line_confidence(line))
             dense = line.get_dense_logits()
@@ -141,9 +150,10 @@ def _line_case(item):
         if len(lc) != len(labels) or len(let) != len(labels) or len(lcs) != len(labels) or len(lets) != len(labels):
             rec["outcome"] = "wrong-number-of-confidences"
             return rec
-        allv = np.concatenate([lc, let, [cm], lcs, lets, [cms]])
+        allv = np.concatenate([lc, let, [cm], lcs, lets, [cms]] + [e for e in extra_vals if len(e) == len(labels)])
         rec["over"] = _u12(max(float(np.max(allv - 1.0)), float(np.max(-allv))))
-        rec["dshift"] = _u12(max(float(np.max(np.abs(lc - lcs))), float(np.max(np.abs(let - lets)))))
+        rec["dshift"] = _u12(max([float(np.max(np.abs(lc - lcs))), float(np.max(np.abs(let - lets)))] +
+                                 [float(np.max(np.abs(e - lcs))) for e in extra_vals if len(e) == len(labels)]))
         rec["dshift_cmp"] = _u12(abs(cm - cms))
         rec["one"] = _u12(float(np.max(1.0 - np.concatenate([lc, let, lcs, lets]))))
         rec["one_cmp"] = _u12(max(1.0 - cm, 1.0 - cms))
@@ -173,12 +183,20 @@ def _bag_case(item):
            "outcome": "ok", "post": [], "conf": 0, "tconf": [], "tabsent": 0, "sumdev": 0, "over": 0, "dshift": 0, "confdev": 0}
     try:
         weight = {"none": 1.0, "0": 0.0, "half": 0.5, "1": 1.0, "2": 2.0}[scale]
+        mixed = scale != "none" and seed % 3 == 0 and 9 in lm and any(x != 9 for x in lm)
+        if mixed:
+            # BagOfHypotheses.total_scores() falls back to the visual scores when any LM score is missing: for the exact-value
+            # (drift) clause the bag is the one with LM weight 0
+            rec["has_lm"] = False
+            rec["scale"] = "0"
         const = rng.uniform(-30, 5)                 # visual scores are un-normalised log-probabilities
         obs = []
         for cst in (const, const + rng.choice([-1, 1]) * rng.uniform(0.5, 10)):     # the same bag with every score shifted
             bag = BagOfHypotheses(lm_weight=weight)
             for i in range(n):
-                bag.add("h%d" % i, math.log(v[i]) + cst, None if scale == "none" else math.log(lm[i] / 10.0))
+                # bags in which only some hypotheses carry an LM score (lm weight 9 stands for "no LM score" in every third bag)
+                no_lm = scale == "none" or (mixed and lm[i] == 9)
+                bag.add("h%d" % i, math.log(v[i]) + cst, None if no_lm else math.log(lm[i] / 10.0))
             post = [math.exp(p) for p in bag.posteriors()]
             conf = float(bag.confidence())
             tconf = [float(bag.transcript_confidence("h%d" % i)) for i in range(n)]
